@@ -61,6 +61,7 @@ class Genomes:
 			stem = (stems[i % len(stems)] if hostile_names and rng.random() < 0.7 else 'genome') + f'_{i}'
 			ext = rng.choice(['.fasta', '.fa', '.fna', '.fasta.gz', '.fa.gz', '', '.txt', '.gz', '.fasta.fasta', '.FASTA'])
 			gz = ext.endswith('.gz') if rng.random() < 0.9 else not ext.endswith('.gz')
+			gz = gz and rng.choice([True, True, 'multi'])
 			name = stem + ext
 			if name in used:
 				name = f'u{i}_' + name
